@@ -31,7 +31,14 @@ constexpr bool can_scale_without_overflow(Magnitude<BPs...> m, Rep value) {
         (void)value;
         return true;
     } else {
-        return std::numeric_limits<Rep>::max() / get_value<Rep>(m) >= value;
+        // If `Rep` cannot even represent the scale factor itself, then no value other than zero can
+        // be scaled without overflow.  (Answering here, rather than via `get_value<Rep>(m)`, keeps
+        // this question well formed for every magnitude.)
+        constexpr auto mag_value_result = detail::get_value_result<Rep>(Magnitude<BPs...>{});
+        if (mag_value_result.outcome != detail::MagRepresentationOutcome::OK) {
+            return value == Rep{0};
+        }
+        return std::numeric_limits<Rep>::max() / mag_value_result.value >= value;
     }
 }
 
